@@ -556,6 +556,57 @@ type deepCall struct {
 }
 
 // deepCalls: calls of the named callee in the anchor function and in the helpers extracted from it.
+// Sub expresses a term of the frame's function in the anchor's vocabulary.
+func (fr frame) Sub(t string) string {
+	if len(fr.subst) > 0 {
+		return guard.SubstParams(t, fr.subst)
+	}
+	return t
+}
+
+// Fns: the functions along the frame's chain, anchor first, the frame's own function last.
+func (fr frame) Fns(anchor *ssa.Function) []*ssa.Function {
+	fns := []*ssa.Function{anchor}
+	for _, c := range fr.Chain {
+		fns = append(fns, c.Common().StaticCallee())
+	}
+	return fns
+}
+
+// At: the instruction of level lvl that leads to ins (ins itself at the deepest level).
+func (fr frame) At(lvl int, ins ssa.Instruction) ssa.Instruction {
+	if lvl < len(fr.Chain) {
+		return fr.Chain[lvl]
+	}
+	return ins
+}
+
+// anchorFrames enumerates (anchor, frame) pairs over consensus code: every known (vocabulary) function is an
+// anchor, its transparent helpers are visited as frames under it. A transparent function that no anchor's frames
+// reach (too deep, or without a known caller) is an anchor of its own, so nothing is skipped.
+func anchorFrames(r *core.Run, visit func(anchor *ssa.Function, fr frame)) {
+	seen := map[*ssa.Function]bool{}
+	var late []*ssa.Function
+	for _, f := range r.P.SortedFuncs(r.ConsensusFuncs()) {
+		if r.P.Transparent(f) && len(r.Owners(f)) > 0 {
+			late = append(late, f)
+			continue
+		}
+		for _, fr := range frames(r, f) {
+			seen[fr.Fn] = true
+			visit(f, fr)
+		}
+	}
+	for _, f := range late {
+		if !seen[f] {
+			for _, fr := range frames(r, f) {
+				seen[fr.Fn] = true
+				visit(f, fr)
+			}
+		}
+	}
+}
+
 func deepCalls(r *core.Run, anchor *ssa.Function, callee string) []deepCall {
 	var out []deepCall
 	for _, fr := range frames(r, anchor) {
